@@ -1,7 +1,9 @@
 from __future__ import annotations
 
 import logging
+import os
 import pathlib
+import shutil
 import sys
 from collections import defaultdict
 from collections.abc import Iterable
@@ -140,8 +142,18 @@ class SourceFile:
             # no or mixed line endings
             newline = "\n"
 
-        with open(self.filename, "w", encoding="utf-8", newline=newline) as code:
-            code.write(new_code)
+        # the new content is written into a temporary file first,
+        # so that an error can not leave a truncated test file behind
+        filename = pathlib.Path(os.path.realpath(self.filename))
+        tmp_filename = filename.with_name(f".{filename.name}.tmp")
+        try:
+            with open(tmp_filename, "w", encoding="utf-8", newline=newline) as code:
+                code.write(new_code)
+            shutil.copymode(filename, tmp_filename)
+            os.replace(tmp_filename, filename)
+        finally:
+            if tmp_filename.exists():
+                tmp_filename.unlink()
 
     def virtual_write(self):
         self.source = self.new_code()
